@@ -12,7 +12,10 @@ pub mod someip;
 use crate::{dlt::DltMessage, SendMsgFnReturnType};
 use plugin::Plugin;
 
+#[cfg(not(adlt_verif_sched))]
 use std::sync::mpsc::{Receiver, SendError};
+#[cfg(adlt_verif_sched)]
+use shuttle::sync::mpsc::{Receiver, SendError};
 
 /// read all msgs from inflow, have all plugins process the msg.
 /// if any plugin returns false processing of that msg is stopped and the msg
